@@ -9,6 +9,8 @@ pub struct Transcript {
 
 impl Transcript {
     pub fn new(digest: Felt) -> Self {
+        #[cfg(swiftness_verif)]
+        crate::verif::record(crate::verif::Event::New { digest });
         Self { digest, counter: Felt::from(0) }
     }
 
@@ -26,6 +28,15 @@ impl Transcript {
 
     pub fn random_felt_to_prover(&mut self) -> Felt {
         let hash = poseidon_hash(self.digest, self.counter);
+        #[cfg(swiftness_verif)]
+        {
+            crate::verif::tick("transcript.squeeze", 1);
+            crate::verif::record(crate::verif::Event::Squeeze {
+                digest: self.digest,
+                counter: self.counter,
+                out: hash,
+            });
+        }
         self.counter += Felt::ONE;
         hash
     }
@@ -41,12 +52,28 @@ impl Transcript {
 
     pub fn read_felt_from_prover(&mut self, val: &Felt) {
         let hash = poseidon_hash_many([&(self.digest + Felt::ONE), val]);
+        #[cfg(swiftness_verif)]
+        {
+            crate::verif::tick("transcript.absorb", 1);
+            crate::verif::record(crate::verif::Event::Absorb {
+                values: vec![*val],
+                digest_after: hash,
+            });
+        }
         self.digest = hash;
         self.counter = Felt::ZERO;
     }
 
     pub fn read_felt_vector_from_prover(&mut self, val: &[Felt]) {
         let hash = poseidon_hash_many(vec![&(self.digest + Felt::ONE)].into_iter().chain(val));
+        #[cfg(swiftness_verif)]
+        {
+            crate::verif::tick("transcript.absorb", 1 + val.len() as u64);
+            crate::verif::record(crate::verif::Event::Absorb {
+                values: val.to_vec(),
+                digest_after: hash,
+            });
+        }
         self.digest = hash;
         self.counter = Felt::ZERO;
     }
